@@ -42,6 +42,7 @@ json world8()
 	fs.push_back(fs_file("/inc/self.conf", "a = 2\ninclude(\"/inc/self.conf\")\n"));
 	fs.push_back(fs_file("/inc/unterminated.conf", "a = 3\ns = \"never closed\n"));
 	fs.push_back(fs_file("/inc/incomment.conf", "a = 4 /* never closed\n"));
+	fs.push_back({{"path", "/inc/dir"}, {"kind", "dir"}});
 	json w;
 	w["fs"] = fs;
 	w["env"] = {{"X", "1"}};
@@ -72,7 +73,7 @@ const EventKind EVENTS[] = {
 	{"trailing_backslash", 2}, {"err_in_list", 2}, {"err_in_func_args", 2}, {"err_in_nested", 2}, {"err_in_include", 3},
 	{"include_missing", 2}, {"include_depth", 2}, {"include_self", 1}, {"int_range_parser", 2}, {"float_range_parser", 1},
 	{"range_setopt", 2}, {"bad_escape", 2}, {"unknown_option", 1}, {"validator_veto", 2}, {"free_reinit", 2},
-	{"end_in_dq_in_include", 2}, {"range_setmulti", 2}, {"end_in_comment_in_include", 1},
+	{"end_in_dq_in_include", 2}, {"range_setmulti", 2}, {"end_in_comment_in_include", 1}, {"include_dir", 2}, {"assignment_cut_after_equals", 2},
 };
 const int NEVENTS = sizeof(EVENTS) / sizeof(EVENTS[0]);
 
@@ -146,6 +147,10 @@ void emit_event(Rng &r, int kind, int cl, int ctx, json &steps, const json &sche
 		buf("include(\"/inc/unterminated.conf\")\n");
 	else if (k == "end_in_comment_in_include")
 		buf("include(\"/inc/incomment.conf\")\n");
+	else if (k == "include_dir")
+		buf("a = 8\ninclude(\"/inc/dir\")\n");
+	else if (k == "assignment_cut_after_equals")
+		buf(r.chance(1, 2) ? "l =" : "sl = (");
 }
 
 json generate(uint64_t seed, uint64_t idx, int tier)
@@ -226,6 +231,12 @@ json generate(uint64_t seed, uint64_t idx, int tier)
 		static const char *bad[] = {"a = 1\nl = {1, zz}\n", "\n\n\nb = maybe\n", "# c\n/* x\n y */\nf = 1e999\n", "s = \"two\nlines\"\nzzz = 1\n"};
 		json ps = parse_step((int)r.below(nclients), (int)r.below(nctx), "buf", bad[r.below(4)]);
 		ps["ctxprobe"] = 1;
+		steps.push_back(ps);
+	}
+	// '+=' into a re-used context appends to what the list holds, whatever was aborted there before
+	if (r.chance(1, 2)) {
+		json ps = parse_step((int)r.below(nclients), (int)r.below(nctx), "buf", r.chance(1, 2) ? "l += {41, 42}\n" : "sl += {zz9}\n");
+		ps["appendprobe"] = 1;
 		steps.push_back(ps);
 	}
 	plan["steps"] = steps;
@@ -383,6 +394,50 @@ JudgeOut judge(const json &plan)
 						    nullptr});
 		}
 
+	// ---- O-append: an accepted '+=' into a re-used context appends to the values the context held before the parse
+	if (out.viol.empty())
+		for (size_t i = 0; i < plan["steps"].size(); i++) {
+			const json &st = plan["steps"][i];
+			if (!st.value("appendprobe", 0))
+				continue;
+			const OpResult *bp = nullptr, *prev = nullptr;
+			for (auto &o : base.ops) {
+				if (o.index == (int)i)
+					bp = &o;
+				else if (o.index < (int)i && o.client == st.value("cl", 0) && o.ctx == st.value("c", 0) && !o.dump.empty())
+					prev = &o;
+			}
+			if (!bp || !prev || bp->skipped || bp->ret != 0 || prev->op == "free")
+				continue;
+			std::string text = source_text(st["src"]);
+			std::string name = text.substr(0, text.find(' '));
+			auto values_of = [&](const std::string &dump) {
+				size_t p = dump.find("\n" + name + ":");
+				if (dump.compare(0, name.size() + 1, name + ":") == 0)
+					p = 0;
+				else if (p == std::string::npos)
+					return std::string("?");
+				else
+					p++;
+				size_t eol = dump.find('\n', p);
+				std::string line = dump.substr(p, eol - p);
+				size_t b = line.find('['), e = line.rfind(']');
+				return b == std::string::npos || e == std::string::npos ? std::string("?") : line.substr(b + 1, e - b - 1);
+			};
+			std::string before = values_of(prev->dump), after = values_of(bp->dump);
+			std::string added = name == "l" ? "41,42" : "\"zz9\"";
+			std::string want = before.empty() ? added : before + "," + added;
+			out.k.add("probe.append_into_reused_context");
+			if (before != "?" && after != want)
+				out.viol.push_back({"O-append", "'" + name + " += ...' parsed into a re-used context must append to its current values [" + before + "] but the option now holds [" + after + "]: an earlier (aborted) parse left a trace", nullptr});
+		}
+
+	// ---- process-wide resources: no stream may stay open, the include stack must be empty
+	if (out.viol.empty())
+		for (auto &c : base.conservation)
+			if (c.compare(0, 11, "stream-leak") == 0 || c.compare(0, 13, "include-stack") == 0)
+				out.viol.push_back({"O-resource:" + c.substr(0, c.find_first_of(" =")), "after the history a process-wide resource is still held (" + c + "): later parses of any context depend on it", nullptr});
+
 	// ---- O-solo: each client's outcomes equal its solo run
 	int nclients = plan.contains("params") ? plan["params"].value("clients", 1) : 1;
 	if (out.viol.empty() && nclients > 1) {
@@ -417,14 +472,14 @@ Property P = [] {
 	Property p;
 	p.id = "C08";
 	p.level = "exploration";
-	p.rule = "seeded histories of 1..6 prior events (24 kinds: accepted parses via buffer/stream/file+include, parses ending inside \"..\", '..', /*..*/, "
+	p.rule = "seeded histories of 1..6 prior events (26 kinds: accepted parses via buffer/stream/file+include, parses ending inside \"..\", '..', /*..*/, "
 		 "trailing backslash, syntax errors in list / function arguments / nested section, error inside an included file at depth 1..3, missing include, "
 		 "include depth exhausted, self-include, range failures via parser/setopt/setmulti, bad escape, unknown option, validator veto, free+re-init) over 1-2 clients "
 		 "x 1-2 contexts, followed by 2-4 probes from a fixed set of 11; in the thorough tier all 24 + 24*24 histories of length 1 and 2 are enumerated first, longer ones are sampled; "
 		 "distinct = distinct event-kind sequences (the history), all non-trivial";
 	p.assumptions = {"the probe set and event texts are fixed by the generator; outcomes compared are return code, diagnostics (file,line) and the canonical dump",
 			 "O-scrub resets the scanner object's .data/.bss, cfg_yylval and errno between API calls; a correct library cannot observe that"};
-	p.probes = {"parse_begun_outside_INITIAL", "parse_failed_inside_included_file", "two_clients_interleaved", "rejected_probe_into_reused_context"};
+	p.probes = {"parse_begun_outside_INITIAL", "parse_failed_inside_included_file", "two_clients_interleaved", "rejected_probe_into_reused_context", "append_into_reused_context"};
 	p.components = {{"confuse.c", "real"}, {"lexer.l (flex 2.6.4 generated)", "real"}, {"glibc stdio/strtol/strtod", "real"}, {"allocator", "stub: accounting wrappers over the real heap"},
 			{"file namespace (fopen/stat)", "stub: in-memory tree"}, {"getenv", "stub: simulated environment"}, {"user callbacks", "stub: simulator parties"}, {"exit/abort/assert", "stub: recorded and unwound"}};
 	p.quick_seconds = 20;
